@@ -103,20 +103,17 @@ func (c *Client) Backoff(err error) <-chan struct{} {
 func (c *Client) Ping(quit <-chan struct{}) error {
 	// install callback
 	done := make(chan error, 1)
-	select {
-	case c.pingAck <- done:
-		break // OK
-	default:
+	if !c.pingAck.CompareAndSwap(nil, &done) {
 		return fmt.Errorf("%w; PING unavailable", ErrMax)
 	}
 
 	// submit transaction
 	if err := c.write(quit, packetPINGREQ); err != nil {
 		verifYield("ping.fail")
-		select {
-		case <-c.pingAck: // unlock
-		default: // picked up by unrelated pong
-		}
+		// Unlock, unless picked up already by a connection loss or by
+		// an unrelated pong. The slot may hold the callback of a later
+		// Ping by then, which is not ours to take.
+		c.pingAck.CompareAndSwap(&done, nil)
 		if errors.Is(err, ErrSubmit) {
 			return fmt.Errorf("%w; PING in limbo", err)
 		}
@@ -128,12 +125,10 @@ func (c *Client) Ping(quit <-chan struct{}) error {
 		return err
 	case <-quit:
 		verifYield("ping.quit")
-		select {
-		case <-c.pingAck: // unlock
+		if c.pingAck.CompareAndSwap(&done, nil) { // unlock
 			return fmt.Errorf("%w; PING not confirmed", ErrAbandoned)
-		default: // picked up in mean time
-			return <-done
 		}
+		return <-done // picked up in mean time
 	}
 }
 
@@ -141,12 +136,9 @@ func (c *Client) onPINGRESP() error {
 	if len(c.peek) != 0 {
 		return fmt.Errorf("%w: PINGRESP with %d byte remaining length", errProtoReset, len(c.peek))
 	}
-	select {
-	case ack := <-c.pingAck:
-		close(ack)
-	default:
-		break // tolerates wandering pong
-	}
+	if ack := c.pingAck.Swap(nil); ack != nil {
+		close(*ack)
+	} // else tolerates wandering pong
 	return nil
 }
 
